@@ -1068,6 +1068,9 @@ class TrackByName(Harness):
             for runs in runsets + ([[0, 0, 1]] if tier == "thorough" and g == "g2" else []):
                 for prior in (False, True):
                     out.append(dict(genome=g, runs=runs, prior=prior))
+        # track[locations]: the value at each location, the locations given in reverse genome order
+        for g, runs in (("g2", [0, 1]), ("g2", [1, 1]), ("g3", [0, 2])):
+            out.append(dict(genome=g, runs=runs, prior=False, locations=True))
         # the array assembled from a dict of per-chromosome arrays whose key order is / is not the genome order
         for g in ("g2", "g3"):
             for order in ("genome", "reversed"):
@@ -1101,6 +1104,16 @@ class TrackByName(Harness):
             seen = {nm: t0[nm].to_array().tolist() for nm in ("chr1", "chr2", "chr10")}
             assert seen == {"chr1": [0, 7, 7, 7, 7], "chr2": [8, 8, 8, 0], "chr10": [9, 9]}, seen
         A = make_track(ctx, x, skel["runs"], genome, "a")
+        if skel.get("locations"):
+            from bionumpy.datatypes import LocationEntry
+            where = [(nm, p) for nm in genome for p in range(genome[nm])][::-1]
+            locations = bnp.Genome.from_dict(dict(genome)).get_locations(LocationEntry([nm for nm, _ in where], [p for _, p in where]))
+            values = ctx.lst(A[locations])[::-1]
+            dense, k = {}, 0
+            for nm in genome:
+                dense[nm] = values[k:k + genome[nm]]
+                k += genome[nm]
+            return dict(dense=dense)
         return dict(dense={nm: ctx.lst(A[nm].to_array()) for nm in genome})
 
     def post(self, skel, x, out):
